@@ -14,6 +14,7 @@ import (
 	"sort"
 	"strconv"
 	"strings"
+	"time"
 
 	"verifharness/hlib"
 
@@ -198,8 +199,13 @@ func emptyRoot() node.Root {
 // used to attribute a failing specification case to eviction.
 var forceCaps string
 
-// limitedCapsUsed records whether the current specification case created a tree with a limited cache.
-var limitedCapsUsed bool
+// limitedCapsUsed records whether the current specification case created a tree with a limited cache;
+// smallestNodeCapUsed the smallest limited node capacity it used; keyUniverse every key it generated.
+var (
+	limitedCapsUsed     bool
+	smallestNodeCapUsed uint64
+	keyUniverse         [][]byte
+)
 
 func newImpl(backend string, nodeCap, valCap uint64) *impl {
 	switch forceCaps {
@@ -207,9 +213,14 @@ func newImpl(backend string, nodeCap, valCap uint64) *impl {
 		nodeCap, valCap = 0, 0
 	case "node0":
 		nodeCap = 0
+	case "val0":
+		valCap = 0
 	}
 	if nodeCap != 0 || valCap != 0 {
 		limitedCapsUsed = true
+	}
+	if nodeCap != 0 && (smallestNodeCapUsed == 0 || nodeCap < smallestNodeCapUsed) {
+		smallestNodeCapUsed = nodeCap
 	}
 	im := &impl{backend: backend}
 	if backend == "badger" || backend == "pathbadger" {
@@ -444,12 +455,30 @@ func (im *impl) exec(w []string) string {
 	panic("unknown op " + op)
 }
 
+// caseRun is what executing a case on the real tree produced: the annotated lines for the model,
+// for every line the index of the op it came from, and (when probing) what the cache looked like
+// around every op that reached the tree.
+type caseRun struct {
+	lines    []string
+	idx      []int
+	probes   map[int]*opProbe
+	panicked string
+}
+
 // runImpl executes a case (first op `new <backend> <nodeCap> <valCap>`) on the real tree.
 func runImpl(ops []string) (lines []string, panicked string) {
+	r := execCase(ops, false)
+	return r.lines, r.panicked
+}
+
+func execCase(ops []string, probe bool) (run caseRun) {
 	var im *impl
 	var cx *ctxImpl
 	defer func() { im.close() }()
-	for _, op := range ops {
+	if probe {
+		run.probes = map[int]*opProbe{}
+	}
+	for opIdx, op := range ops {
 		w := strings.Fields(op)
 		if len(w) == 0 {
 			continue
@@ -461,7 +490,7 @@ func runImpl(ops []string) (lines []string, panicked string) {
 					if os.Getenv("VERIF_MKVS_TRACE") != "" {
 						fmt.Fprintf(os.Stderr, "panic in `%s`: %v\n%s\n", op, r, debug.Stack())
 					}
-					panicked = fmt.Sprintf("%s: %v", op, r)
+					run.panicked = fmt.Sprintf("%s: %v", op, r)
 					line = op + " PANIC:" + strings.ReplaceAll(clip(fmt.Sprint(r)), " ", "_")
 				}
 			}()
@@ -504,29 +533,57 @@ func runImpl(ops []string) (lines []string, panicked string) {
 			if im == nil {
 				im = newImpl("mem", 0, 0)
 			}
+			if probe {
+				pr := probeBefore(im, w)
+				run.probes[opIdx] = pr
+				defer func() { probeAfter(im, pr) }()
+			}
 			line = im.exec(w)
 		}()
 		if line != "" {
-			lines = append(lines, line)
+			run.lines = append(run.lines, line)
+			run.idx = append(run.idx, opIdx)
 		}
-		if panicked != "" {
+		if run.panicked != "" {
 			break
 		}
 	}
 	return
 }
 
-// check runs implementation and model on the ops; returns "" or the divergence.
-func check(ops []string) (string, []string) {
-	lines, _ := runImpl(ops)
-	ans, err := hlib.RunModel("mkvs", lines)
+// judge asks the model about the lines; returns "" or the divergence and the index (into the
+// case's ops) of the first op the model did not accept.
+func judge(run caseRun) (string, int) {
+	ans, err := hlib.RunModel("mkvs", run.lines)
 	if err != nil {
-		return "model-error: " + err.Error(), lines
+		return "model-error: " + err.Error(), -1
 	}
 	if i := hlib.FirstBad(ans, "ok"); i >= 0 {
-		return fmt.Sprintf("at op %d `%s`: %s", i, clip(lines[i]), clip(ans[i])), lines
+		return fmt.Sprintf("at op %d `%s`: %s", i, clip(run.lines[i]), clip(ans[i])), run.idx[i]
 	}
-	return "", lines
+	return "", -1
+}
+
+// check runs implementation and model on the ops; returns "" or the divergence.
+func check(ops []string) (string, []string) {
+	run := execCase(ops, false)
+	d, _ := judge(run)
+	return d, run.lines
+}
+
+func clipLines(l []string) []string {
+	out := make([]string, 0, len(l))
+	for i, s := range l {
+		if i >= 60 {
+			out = append(out, fmt.Sprintf("... (%d more lines)", len(l)-i))
+			break
+		}
+		if len(s) > 120 {
+			s = s[:120] + "..."
+		}
+		out = append(out, s)
+	}
+	return out
 }
 
 func clip(s string) string {
@@ -546,6 +603,14 @@ type keygen struct {
 }
 
 func (g *keygen) fresh() []byte {
+	k := g.fresh1()
+	if len(keyUniverse) < 1<<16 {
+		keyUniverse = append(keyUniverse, k)
+	}
+	return k
+}
+
+func (g *keygen) fresh1() []byte {
 	r := g.r
 	switch k := r.Intn(100); {
 	case k < 6:
@@ -633,6 +698,7 @@ var backends = []string{"mem", "mem", "mem", "badgermem", "badgermem", "pathbadg
 // "c13" (database backends, write logs).
 func genCase(r *hlib.Rng, nops int, focus string, res *hlib.Result) []string {
 	g := &keygen{r: r}
+	keyUniverse = nil
 	backend := backends[r.Intn(len(backends))]
 	if focus == "c13" && backend == "mem" {
 		backend = "badgermem"
@@ -786,19 +852,23 @@ func signature(detail string) string {
 }
 
 // withCaps rewrites the cache capacities of a case: mode "all0" makes both caches unlimited,
-// "node0" only the node cache.
+// "node0" only the node cache, "val0" only the value cache.
 func withCaps(ops []string, mode string) []string {
 	out := make([]string, len(ops))
 	for i, op := range ops {
 		w := strings.Fields(op)
 		if len(w) >= 4 && w[0] == "new" {
-			w[2] = "0"
-			if mode == "all0" {
+			if mode != "val0" {
+				w[2] = "0"
+			}
+			if mode != "node0" {
 				w[3] = "0"
 			}
 		} else if len(w) >= 3 && w[0] == "reopen" {
-			w[1] = "0"
-			if mode == "all0" {
+			if mode != "val0" {
+				w[1] = "0"
+			}
+			if mode != "node0" {
 				w[2] = "0"
 			}
 		}
@@ -809,7 +879,10 @@ func withCaps(ops []string, mode string) []string {
 
 // refine gives the stable signature of a divergence. A divergence that disappears when the
 // caches are made unlimited is an instance of "eviction changes an answer" (C03) and is
-// attributed to the value cache if it persists with an unlimited node cache.
+// attributed to the value cache if it persists with an unlimited node cache. Each of the two is
+// then split (cache.go) into the one mechanism that is a listed known finding (D2b: a write under
+// a node capacity below its need; D1b: the evictable embedded leaf of a dirty / removed-through
+// node) and everything else, which gets a signature of its own and is a violation.
 func refine(ops []string, d string) string {
 	if strings.Contains(d, "fork-write-log") || strings.Contains(d, "`getwlf") {
 		return "fork-write-log-divergence"
@@ -835,13 +908,36 @@ func refine(ops []string, d string) string {
 	if strings.Contains(d, "model-error") {
 		return base
 	}
-	if dd, _ := check(withCaps(ops, "all0")); dd != "" {
+	all0 := execCase(withCaps(ops, "all0"), false)
+	if dd, _ := judge(all0); dd != "" {
 		return base
 	}
-	if dd, _ := check(withCaps(ops, "node0")); dd != "" {
-		return "mkvs-evict-value-cache"
+	// Which cache is it? node0: node cache unlimited, value cache as given; val0: the reverse.
+	node0, val0 := withCaps(ops, "node0"), withCaps(ops, "val0")
+	dn, _ := check(node0)
+	dv, _ := check(val0)
+	switch {
+	case dn != "" && dv == "":
+		return classifyValueEviction(node0)
+	case dn == "" && dv != "":
+		return classifyNodeEviction(val0, all0)
+	case dn != "" && dv != "":
+		// Two independent causes; a cause that is not a listed finding must not hide behind one that is.
+		sn, sv := classifyNodeEviction(val0, all0), classifyValueEviction(node0)
+		if sn == sigNodeSufficient || sv != sigValueOther {
+			return sn
+		}
+		return sv
 	}
-	return "mkvs-evict-node-cache"
+	// Only both limits together make it fail (e.g. the re-fetch of a clean node whose embedded leaf
+	// was evicted): known only if one of the two listed mechanisms was at work.
+	if classifyNodeEviction(ops, all0) == sigNodeBelowNeed {
+		return sigNodeBelowNeed
+	}
+	if classifyValueEviction(ops) == sigValueEmbedded {
+		return sigValueEmbedded
+	}
+	return sigNodeSufficient
 }
 
 func main() {
@@ -853,6 +949,8 @@ func main() {
 	ctxCases := flag.Int("ctx", 0, "number of generated api.Context histories (C03)")
 	keyCases := flag.Int("keys", 0, "number of generated node.Key operation batches (C02)")
 	forkCases := flag.Int("forks", 0, "number of generated fork histories: competing non-finalized roots (C13)")
+	cacheCases := flag.Int("cache", 0, "number of generated full-but-sufficient node cache histories (C02/C03), see cache.go")
+	shrinkBudget := flag.Int("shrinkbudget", 120, "seconds ddmin may spend on one failure")
 	flag.IntVar(&minCap, "mincap", 1, "smallest node cache capacity generated")
 	flag.IntVar(&minValCap, "minvalcap", 1, "smallest value cache capacity (bytes) generated")
 	out := flag.String("out", "-", "result file")
@@ -866,7 +964,7 @@ func main() {
 	}
 
 	res := hlib.NewResult("mkvsdrv", *seed)
-	res.Rule = "random op histories (insert/remove/remove-existing/get/iterate+seek/overlay new,commit,discard up to 3 deep/commit/reopen/ApplyWriteLog/GetWriteLog) over key pools drawn from {00,01,80,ff}* incl. the empty key, proper-prefix chains, single-bit differences and long keys; values incl. empty and >255 bytes; backends none/badger/pathbadger (memory and disk), node/value cache capacities from 1; a case is non-trivial when at least one commit produced a non-empty root; distinct by op list. Spec cases: see counters spec:*"
+	res.Rule = "random op histories (insert/remove/remove-existing/get/iterate+seek/overlay new,commit,discard up to 3 deep/commit/reopen/ApplyWriteLog/GetWriteLog) over key pools drawn from {00,01,80,ff}* incl. the empty key, proper-prefix chains, single-bit differences and long keys; values incl. empty and >255 bytes; backends none/badger/pathbadger (memory and disk), node/value cache capacities from 1; a case is non-trivial when at least one commit produced a non-empty root; distinct by op list. Cache cases (counters cachecase:*): trees of 30-500 keys committed, re-opened at the root with a node capacity from the measured need of the case's writes up to the number of internal nodes (cache full, larger than any path), rounds of read / run of reads or scan elsewhere / writes under the long-resident ancestors / reads, commits and reopens, both database backends. Spec cases: see counters spec:*"
 
 	sigSeen := map[string]int{}
 	runOne := func(ops []string, caseSeed uint64, minimize bool) {
@@ -885,8 +983,18 @@ func main() {
 			return
 		}
 		if minimize && os.Getenv("VERIF_MKVS_NOSHRINK") == "" {
-			head, tail := ops[:1], ops[1:]
+			// Nothing after the op at which the model first disagrees is needed.
+			if _, bad := judge(execCase(ops, false)); bad >= 1 && bad+1 < len(ops) {
+				if cut := ops[:bad+1]; func() bool { dd, _ := check(cut); return dd != "" && refine(cut, dd) == sig }() {
+					min = cut
+				}
+			}
+			deadline := time.Now().Add(time.Duration(*shrinkBudget) * time.Second)
+			head, tail := min[:1], min[1:]
 			tail = hlib.Shrink(tail, func(c []string) bool {
+				if time.Now().After(deadline) {
+					return false
+				}
 				cc := append(append([]string{}, head...), c...)
 				dd, _ := check(cc)
 				return dd != "" && refine(cc, dd) == sig
@@ -899,7 +1007,7 @@ func main() {
 			kind = "panic"
 		}
 		if strings.HasPrefix(sig, "mkvs-evict") {
-			d = sig + " (the divergence disappears with unlimited caches): " + d
+			d = sig + " (the divergence disappears with unlimited caches; " + describeEviction(sig) + "): " + d
 		}
 		res.Fail(hlib.Failure{Kind: kind, Detail: d, Case: min, Seed: caseSeed, Sig: sig})
 	}
@@ -983,6 +1091,27 @@ func main() {
 		if len(res.Failures) >= 6 {
 			break
 		}
+	}
+	for i := 0; i < *cacheCases && len(res.Failures) < 8; i++ {
+		cr := rng.Fork()
+		cs := cr.Seed()
+		ops := genCacheCase(cr, res)
+		res.Count("cachecase")
+		run := execCase(ops, true)
+		d, _ := judge(run)
+		if i < 1 {
+			res.AddSample(clipLines(run.lines))
+		}
+		if d != "" {
+			runOne(ops, cs, true)
+			continue
+		}
+		if needs, err := measureNeeds(run); err == nil {
+			countCacheRun(run, ops, needs, res)
+		}
+		res.Cases++
+		res.Ops += len(run.lines)
+		res.Distinct++
 	}
 	for i := 0; i < *ctxCases && len(res.Failures) < 8; i++ {
 		cr := rng.Fork()
